@@ -159,6 +159,7 @@ Each is rendered for the three backends in both modes (six texts), transliterate
 (MySQL NULLS emulation, set-operation parentheses, function substitution, VALUES ROW, default-row form, text literal with backslash escapes / E'' form); distinct by the pair of MySQL / Postgres texts."
         .into();
     ctx.assumptions.push("executing a transliteration on SQLite evaluates the structure (clauses, grouping, parenthesisation, emulations) the other backend produced; it says nothing about MySQL / Postgres run-time semantics of individual operators".into());
+    ctx.domain_restrictions.push("ORDER BY FIELD is not combined with NULLS FIRST / LAST (known finding mysql/field-order-with-nulls, demonstrated by its own reproducer)".into());
     ctx.domain_restrictions.push("excluded as not portable: RETURNING, upsert, REPLACE, locks, RIGHT / FULL / CROSS joins, windows, division / modulo / shift / bit operators, LIKE, boolean values, text values other than whole select items, custom operators and templates, ORDER BY / LIMIT on UPDATE / DELETE".into());
     let n = ctx.tier.pick(150_000, 3_000_000);
     ctx.run_proptest("statements", n, &case_strategy, &check);
